@@ -63,6 +63,13 @@ def build(w, tbl, older=False):
         if r["on"]:
             st = 1 if older else (r["start"] + 2) * TICK
             w.spawn(pid, ppid=r["ppid"], start=st, comm=NAMES[(pid + r["ppid"] + r["start"]) % len(NAMES)])
+    # some of the listed processes have exited and wait to be reaped: they are listed, they have a
+    # parent, they may have children (the lowest PID, init, is left alone)
+    live = sorted(p for p, r in rows(tbl).items() if r["on"])
+    for pid in live[1:]:
+        r = rows(tbl)[pid]
+        if (pid + 2 * r["ppid"] + r["start"]) % 3 == 0 and pid != getattr(w, "c05_keep_alive", None):
+            w.exit(pid)
 
 
 def descendants(tbl, s, without=()):
@@ -80,6 +87,7 @@ def run_chunk(cases):
     out = []
     for i, (e, mode) in enumerate(cases):
         s = e["s"]
+        w.c05_keep_alive = s
         bad = []
         try:
             if mode == "swept":
